@@ -179,7 +179,7 @@ def drive(pid, spec, gen, execute, result, key=None, nontrivial=None):
         if only is not None and i != only:
             continue
         rnd = rng(pid, spec["seed"], spec["shard"], i)
-        case = gen(rnd, spec)
+        case = gen(rnd, dict(spec, case_index=i))
         problems = list(execute(case, result) or ())
         result.case(
             case,
